@@ -294,6 +294,7 @@ func RunBatcherV2(t *testing.T, sc *Scenario, out io.Writer) {
 	synctest.Test(t, func(t *testing.T) {
 		start := time.Now()
 		lg := NewLogger(out, start)
+		currentLogger.Store(lg)
 		sc.WriteHeader(lg.w)
 		r := &v2run{sc: sc, log: lg, objs: map[int64]b2.Operation{}}
 		r.ctx, r.cancel = context.WithCancel(context.Background())
@@ -337,6 +338,7 @@ func RunBatcherV2(t *testing.T, sc *Scenario, out io.Writer) {
 			r.doStep(st)
 			synctest.Wait()
 			r.sample()
+			lg.Flush()
 		}
 		// wind-down: release parked callers, cancel, let every timer run out
 		lg.Raw("winddown")
